@@ -158,7 +158,9 @@ def dataclass(
 
   def from_state_dict(x, state):
     """Restore the state of a data class."""
-    state = state.copy()  # copy the state so we can pop the restored fields.
+    # copy the state so we can pop the restored fields (a plain dict: the pop
+    # of a FrozenDict state is functional).
+    state = dict(state)
     updates = {}
     for name in data_fields:
       if name not in state:
